@@ -1,0 +1,25 @@
+//go:build verif
+
+package stage
+
+// Contracts for /verif (contract-based deductive verification of this package).
+// Comment-only file: only the lines starting with "//@" are read, by /verif/bin/govc.
+
+//@ spec in(p *sts.ByteRange, x int64) bool = p.Beg <= x && x < p.End
+//@ spec cov(parts []*sts.ByteRange, x int64) bool = exists(m, 0, len(parts), in(parts[m], x))
+//@ spec wf(parts []*sts.ByteRange) bool =
+//@      forall(k, 0, len(parts), parts[k] != nil && 0 <= parts[k].Beg && parts[k].Beg < parts[k].End)
+
+//@ func minInt64 inline
+//@ func maxInt64 inline
+
+//@ func addCompanionPart
+//@   requires cmp != nil && wf(cmp.Parts) && 0 <= beg && beg < end
+//@   ensures  wf-preserved: wf(cmp.Parts)
+//@   ensures  records-new: forall(x, beg, end, cov(cmp.Parts, x))
+//@   ensures  sound: forall(x, cov(cmp.Parts, x) ==> old(cov(cmp.Parts, x)) || (beg <= x && x < end))
+//@   ensures  retains-at: forall(m, 0, old(len(cmp.Parts)), forall(x, old(in(cmp.Parts[m], x)) ==> in(cmp.Parts[m], x) || (m+1 < len(cmp.Parts) && in(cmp.Parts[m+1], x))))
+//@   ensures  retains-acknowledged: forall(x, old(cov(cmp.Parts, x)) ==> cov(cmp.Parts, x))
+//@   loop 0 invariant 0 <= i && i <= j && j == len(cmp.Parts) && k == j && replaced == nil
+//@   loop 0 invariant forall(m, 0, i, cmp.Parts[m].End <= beg)
+//@   loop 0 decreases j - i
